@@ -9,10 +9,15 @@ import (
 	"bytes"
 	"context"
 	"encoding/binary"
+	"fmt"
 	"log/slog"
 	"net"
+	"os"
 	"sync"
 	"syscall"
+	"testing"
+	"testing/synctest"
+	"time"
 
 	"github.com/osrg/gobgp/v4/pkg/packet/bgp"
 )
@@ -65,8 +70,8 @@ func (h simParkAll) Handle(_ context.Context, r slog.Record) error {
 	return nil
 }
 
-// simParkConn is the daemon's end of a harness-owned connection: the daemon's Write and Close calls are park
-// sites as well (the goroutine is held BEFORE the operation takes effect).
+// simParkConn is the daemon's end of a harness-owned connection: the daemon's Write, Close and Read calls are
+// park sites as well (held BEFORE a write / close takes effect, AFTER a read returned data).
 type simParkConn struct {
 	*simConn
 	h simParkHandler
@@ -79,6 +84,15 @@ func (c *simParkConn) Write(b []byte) (int, error) {
 	}
 	c.h.at("conn:write:" + kind)
 	return c.simConn.Write(b)
+}
+
+// Read: the goroutine is held AFTER the bytes arrived (it has them in hand and has not acted on them yet).
+func (c *simParkConn) Read(b []byte) (int, error) {
+	n, err := c.simConn.Read(b)
+	if n > 0 {
+		c.h.at("conn:read")
+	}
+	return n, err
 }
 
 func (c *simParkConn) Close() error {
@@ -212,5 +226,174 @@ func (h simParkHandler) at(name string) {
 		h.p.mu.Unlock()
 	}
 	h.p.site(name)
+}
+
+
+type simParkScriptResult struct {
+	records  int
+	reached  bool
+	parkedAt string
+	skipped  bool
+	viol     []simViolation
+	pn       string
+	applied  int
+	early    bool
+}
+
+// simParkScenario: a scenario whose oracle is a statement about the quiescent state (so that it must hold
+// whatever order racing things took effect in) and whose bots fold what they received on demand.
+type simParkScenario interface {
+	simScenario
+	foldNew(w *simWorld)
+}
+
+// simParkScript runs script on a fresh world; the goroutine that reaches park site number park is held while
+// the next n events are applied, then released; the rest of the script follows; the scenario's oracle is
+// evaluated at the quiescent end.
+func simParkScript(t *testing.T, mk func() simParkScenario, script []simEvent, parkAt, n int) (res simParkScriptResult) {
+	sc := mk()
+	c := struct{ Park, N int }{parkAt, n}
+	synctest.Test(t, func(t *testing.T) {
+		park := &simPark{want: c.Park, reached: make(chan struct{}), release: make(chan struct{})}
+		armed, skip := false, 0
+		var hmu sync.Mutex
+		w := &simWorld{t: t}
+		gate := simParkHandler{p: park, armed: &armed, mu: &hmu, skip: &skip}
+		gate.locks = func() bool {
+			for _, p := range w.everPeer {
+				if !p.fsm.lock.TryLock() {
+					return true
+				}
+				p.fsm.lock.Unlock()
+			}
+			if !w.s.shared.mu.TryLock() {
+				return true
+			}
+			w.s.shared.mu.Unlock()
+			return false
+		}
+		w.logHandler = gate
+		w.wrapConn = func(sc *simConn) net.Conn { return &simParkConn{simConn: sc, h: gate} }
+		released := false
+		defer func() {
+			if r := recover(); r != nil {
+				res.pn = fmt.Sprint(r)
+			}
+			if !released {
+				park.freeze()
+				released = true
+				close(park.release)
+			}
+			func() {
+				defer func() { recover() }()
+				if w.s != nil {
+					w.stop(true)
+				}
+			}()
+		}()
+		sc.Setup(w)
+		hmu.Lock()
+		armed = true
+		hmu.Unlock()
+		parked := func() bool {
+			select {
+			case <-park.reached:
+				return true
+			default:
+				return false
+			}
+		}
+		enabled := func(e simEvent) bool {
+			for _, x := range sc.Enabled(w) {
+				if x == e {
+					return true
+				}
+			}
+			return false
+		}
+		release := func() {
+			if released {
+				return
+			}
+			park.freeze()
+			hmu.Lock()
+			armed = false
+			hmu.Unlock()
+			released = true
+			close(park.release)
+		}
+		botUp := map[int]bool{0: true, 1: true, 2: true}
+		i := 0
+		apply := func() {
+			e := script[i]
+			i++
+			ok := enabled(e)
+			// the bot's own idea of its session: an "up" whose handshake did not complete (the FSM goroutine is the
+			// one being held) leaves the bot without a session, whatever state the daemon still reports
+			if (e.Op == "ann" || e.Op == "wd" || e.Op == "down" || e.Op == "rr") && !botUp[e.Bot] {
+				ok = false
+			}
+			if os.Getenv("VERIF_PARK_DEBUG") != "" {
+				fmt.Fprintf(os.Stderr, "PARK t=%v event %v enabled=%v parked=%v stats=%v\n", w.now(), e, ok, parked(), w.stats)
+			}
+			if ok {
+				failed := w.stats["up-did-not-establish"]
+				// an event that goes through the management channel cannot complete while the server loop is the
+				// goroutine being held: after 20 s of virtual time the held goroutine is released early
+				applied := make(chan any, 1)
+				go func() {
+					defer func() { applied <- recover() }()
+					sc.Apply(w, e)
+				}()
+				tm := time.NewTimer(20 * time.Second)
+				select {
+				case pn := <-applied:
+					tm.Stop()
+					if pn != nil {
+						panic(pn)
+					}
+				case <-tm.C:
+					release()
+					res.early = true
+					if pn := <-applied; pn != nil {
+						panic(pn)
+					}
+				}
+				res.applied++
+				switch e.Op {
+				case "down", "delpeer":
+					botUp[e.Bot] = false
+				case "up":
+					botUp[e.Bot] = w.stats["up-did-not-establish"] == failed
+					if !botUp[e.Bot] {
+						w.bots[e.Bot].disconnect()
+						w.settle()
+					}
+				}
+			}
+		}
+		for i < len(script) && !parked() {
+			apply()
+		}
+		res.reached = parked()
+		for k := 0; res.reached && k < c.N && i < len(script); k++ {
+			apply()
+		}
+		release()
+		synctest.Wait()
+		w.advance(2 * time.Second)
+		sc.foldNew(w)
+		for i < len(script) {
+			apply()
+		}
+		w.advance(2 * time.Second)
+		sc.foldNew(w)
+		sc.Check(w, nil)
+		res.viol = w.viol
+		res.records = park.n
+		res.parkedAt = park.parkedAt
+		res.skipped = skip > 0
+	})
+	return res
 }
 
